@@ -128,7 +128,7 @@ def random_description(rng, n=72):
 
 
 def header_block(names, range_words, description=None, head=DEFAULT_HEAD, bin_a=b'\x00\x0a\x00\x18\x00',
-                 text_b=None, bin_c=b'\x00\x12\x00\x0b\x00\x06  ', tail=DEFAULT_TAIL, null=0):
+                 text_b=None, bin_c=b'\x00\x12\x00\x0b\x00\x06  ', tail=DEFAULT_TAIL, null=0, name_fill=None):
     """The 276 byte first block of a pass.  names: 4-byte names (<= 20); range_words: five 4-byte IBM words."""
     if len(names) > MAX_CHANNELS:
         raise ValueError('at most 20 channels')
@@ -141,7 +141,13 @@ def header_block(names, range_words, description=None, head=DEFAULT_HEAD, bin_a=
     if len(range_words) != 5 or any(len(w) != 4 for w in range_words) or any(len(n) != 4 for n in names):
         raise ValueError('bad names / range words')
     b = head + description + bin_a + text_b + bin_c + struct.pack('>HH', len(names), null)
-    b += b''.join(names).ljust(4 * MAX_CHANNELS, b' ') + b''.join(range_words) + tail
+    table = b''.join(names)
+    if name_fill is None:
+        table = table.ljust(4 * MAX_CHANNELS, b' ')
+    else:
+        # the slots of the name table beyond the channel count carry no information: whatever the writer left there
+        table += (name_fill * (4 * MAX_CHANNELS))[:4 * MAX_CHANNELS - len(table)]
+    b += table + b''.join(range_words) + tail
     assert len(b) == HEADER_LEN, len(b)
     return b
 
@@ -363,7 +369,7 @@ def random_block_frames(rng, max_block=64, max_blocks=8, allow_empty=True):
     return [full] * nfull + [rng.randrange(1, full)]
 
 
-def random_pass(rng, channels=None, block_frames=None, max_block=64, max_blocks=8, unique_values=True, name_alphabet=None):
+def random_pass(rng, channels=None, block_frames=None, max_block=64, max_blocks=8, unique_values=True, name_alphabet=None, unused_slot_fill_p=0.0):
     nch = channels if channels is not None else rng.choice([1, 2, 3, rng.randrange(1, MAX_CHANNELS + 1), rng.randrange(2, MAX_CHANNELS + 1), MAX_CHANNELS])
     bf = block_frames if block_frames is not None else random_block_frames(rng, max_block, max_blocks)
     n = sum(bf)
@@ -372,6 +378,8 @@ def random_pass(rng, channels=None, block_frames=None, max_block=64, max_blocks=
     fields = {'head': bytes([0, rng.randrange(0, 4), 0, 0]), 'text_b': _printable(rng, 75) if rng.random() < 0.5 else b'T  2 9 / 1 0 - 3'.ljust(75),
               'bin_a': bytes(rng.getrandbits(8) for _ in range(5)), 'bin_c': bytes(rng.getrandbits(8) for _ in range(6)) + b'  ',
               'tail': _printable(rng, 8)}
+    if unused_slot_fill_p and nch < MAX_CHANNELS and rng.random() < unused_slot_fill_p:
+        fields['name_fill'] = rng.choice([b'\x00', b'\xff', b'\x80\x81\xfe', bytes(rng.getrandbits(8) for _ in range(rng.randrange(1, 80)))])
     return PassModel(random_names(rng, nch, alphabet=name_alphabet), random_range(rng, n), bf, words, random_description(rng), fields)
 
 
